@@ -19,6 +19,9 @@ import (
 	"sort"
 	"strings"
 	"testing"
+	"time"
+
+	"github.com/rqlite/rqlite/v10/command/proto"
 )
 
 func c33FullDump(t *testing.T, s *Store) string {
@@ -87,10 +90,36 @@ func c33History(t *testing.T, rep *vfReport, r *vfRng, nOps int, fk bool) (ops, 
 		if e.broken {
 			break
 		}
+		// sometimes the LAST command entry in the log is one that changes nothing: a NOOP,
+		// a strong read (it travels through the log) or a load of invalid data
+		tailKind := ""
+		if r.Chance(50) {
+			e.exec(false, e.genStmts()) // make sure there is something to lose before it
+			switch r.Intn(3) {
+			case 0:
+				mustNoop(e.s, "c33")
+				tailKind = "noop"
+			case 1:
+				qr := queryRequestFromString("SELECT count(*) FROM kv", false, false, false)
+				qr.Level = proto.ConsistencyLevel_STRONG
+				if _, _, _, err := e.s.Query(context.Background(), qr); err != nil {
+					t.Fatalf("strong read: %v", err)
+				}
+				tailKind = "strong-read"
+			default:
+				e.loadBad(0)
+				tailKind = "invalid-load"
+			}
+			if tailKind != "invalid-load" {
+				e.emit("exec 0 d:999", "ok")
+				e.hist = append(e.hist, tailKind)
+			}
+			rep.Count("log-tail-ends-with-" + tailKind)
+		}
 		e.dump("table-wrong-before-shutdown")
 		before := c33FullDump(t, e.s)
 		// shutdown, with or without the snapshot-on-close
-		snapOnClose := r.Chance(40)
+		snapOnClose := r.Chance(40) && tailKind == ""
 		e.s.NoSnapshotOnClose = !snapOnClose
 		addrOld := e.s.Addr()
 		if err := e.s.Close(true); err != nil {
@@ -122,7 +151,18 @@ func c33History(t *testing.T, rep *vfReport, r *vfRng, nOps int, fk bool) (ops, 
 		sort.Strings(want)
 		e.emit("peers "+strings.Join(want, ";"), "ok")
 		e.hist = append(e.hist, fmt.Sprintf("peers(%s)", strings.Join(want, ";")))
-		if err := e.s.Open(); err != nil {
+		err := e.s.Open()
+		if err != nil && strings.Contains(err.Error(), "failed to load any existing snapshots") {
+			// RecoverNode's own snapshot wakes the snapshot store's background reaper; while it
+			// holds the store's write lock raft's non-blocking List/Open fail and start-up aborts.
+			// Timing dependent. Recovery itself is complete (peers file consumed): start again.
+			rep.Fail("recovery-startup-aborted-by-concurrent-reap", fmt.Sprintf("history %v: %v", e.hist, err), map[string]interface{}{"history": e.hist})
+			e.ln.Close()
+			time.Sleep(300 * time.Millisecond)
+			e.newStore()
+			err = e.s.Open()
+		}
+		if err != nil {
 			rep.Fail("recovery-open-failed", fmt.Sprintf("history %v: %v", e.hist, err), map[string]interface{}{"history": e.hist})
 			break
 		}
